@@ -563,11 +563,19 @@ class ClientGenerator:
         has_diff = False
         for new_file in Path(new_dir).rglob("*.py"):
             old_file = Path(old_dir) / new_file.relative_to(new_dir)
-            if old_file.exists():
-                old_lines = old_file.read_text().splitlines()
-                new_lines = new_file.read_text().splitlines()
-                diff = list(difflib.unified_diff(old_lines, new_lines, fromfile=str(old_file), tofile=str(new_file)))
-                if diff:
-                    has_diff = True
-                    print("\n".join(diff))
+            if not old_file.exists():
+                # A file that would be generated now is missing from the existing output
+                has_diff = True
+                print(f"Missing in existing output: {old_file}")
+                continue
+            old_lines = old_file.read_text().splitlines()
+            new_lines = new_file.read_text().splitlines()
+            diff = list(difflib.unified_diff(old_lines, new_lines, fromfile=str(old_file), tofile=str(new_file)))
+            if diff:
+                has_diff = True
+                print("\n".join(diff))
+            elif old_file.read_bytes() != new_file.read_bytes():
+                # Same lines, but different line terminators or trailing newline
+                has_diff = True
+                print(f"Files differ in line endings or trailing newline: {old_file}")
         return has_diff
